@@ -221,7 +221,7 @@ def oracle(line, out):
     v = ok_val(out)
     if v is None:
         return "CLI run could not be canonicalised"
-    if v.startswith(("overwrote", "unexpected-files", "nonzero-status", "file-and-stdout")):
+    if v.startswith(("overwrote", "unexpected-files", "nonzero-status", "file-and-stdout", "existing-sibling")):
         return "CLI broke the output contract: %s" % v[:120]
     if v in ("reject", "help"):
         # non-zero status, nothing on stdout (beyond usage text), no file: the first alternative of the
